@@ -26,3 +26,33 @@ package stat
 //@   pure
 //@   assumed
 //@   ensures r >= 0.0
+
+// ---- C01: the statistic slot records every outcome exactly once, on the entered resource and, for inbound
+// traffic, on the inbound total; nothing else changes
+//@ spec func tot(g, p, e) = sel(sel(g, p), e)
+//@ spec func slotCtxOK(ctx) = ctx != nil && ctx.Input != nil && ctx.Resource != nil && dynptr(ctx.StatNode) != ref(inboundNode) && inboundNode != nil
+//@ spec func isInbound(ctx) = ctx.Resource.flowType == base.Inbound
+//@ spec func counted(ctx, p) = (ctx.StatNode != nil && p == dynptr(ctx.StatNode)) || (isInbound(ctx) && p == ref(inboundNode))
+
+//@ func (s *Slot) OnEntryPassed(ctx)
+//@   props C01, C02, C04
+//@   requires slotCtxOK(ctx)
+//@   ensures[pass-tokens] forall p Int :: forall e Int :: tot(gAdded, p, e) == tot(old(gAdded), p, e) + (counted(ctx, p) && e == base.MetricEventPass ? ctx.Input.BatchCount : 0)
+//@   ensures[in-flight] forall p Int :: sel(gConc, p) == sel(old(gConc), p) + (counted(ctx, p) ? 1 : 0)
+//@   modifies gAdded, gConc
+
+//@ func (s *Slot) OnEntryBlocked(ctx, blockError)
+//@   props C01, C02, C04
+//@   requires slotCtxOK(ctx) && blockError != nil
+//@   ensures[block-tokens] forall p Int :: forall e Int :: tot(gAdded, p, e) == tot(old(gAdded), p, e) + (counted(ctx, p) && e == base.MetricEventBlock ? ctx.Input.BatchCount : 0)
+//@   ensures[no-capacity] gConc == old(gConc)
+//@   modifies gAdded
+
+//@ func (s *Slot) OnCompleted(ctx)
+//@   props C01, C04
+//@   requires slotCtxOK(ctx) && clock_ms >= ctx.startTime
+//@   let b = ctx.Input.BatchCount
+//@   ensures[rt-stored] ctx.rt == clock_ms - old(ctx.startTime)
+//@   ensures[completion] forall p Int :: forall e Int :: tot(gAdded, p, e) == tot(old(gAdded), p, e) + (!counted(ctx, p) ? 0 : (e == base.MetricEventComplete ? b : (e == base.MetricEventRt ? ctx.rt : (e == base.MetricEventError && ctx.err != nil ? b : 0))))
+//@   ensures[released] forall p Int :: sel(gConc, p) == sel(old(gConc), p) - (counted(ctx, p) ? 1 : 0)
+//@   modifies gAdded, gConc, ctx.rt
